@@ -342,12 +342,28 @@ inductive LitText
   | quoted (body : Str)       -- "…"^^xsd:<k>   (body = the string token)
   deriving DecidableEq, Repr
 
-/-- `turtle._literal_label` + `Literal._literal_n3(use_plain=False)`: `toks` are the candidate tokens
+def hasExp (t : Str) : Bool := t.any (fun c => c == 'e' || c == 'E')
+
+/-- the guarded choice of `turtle._literal_label`: a candidate token only if it is in the grammar of the datatype
+    and reads back as the same lexical form; else the quoted typed form.  `toks` are the candidate tokens
     (CPython's formatting, an external), `norm k t` = lexical form of `Literal(t, datatype=k)` (external). -/
-def writeNum (norm : NumKind → Str → Str) (k : NumKind) (lex : Str) (toks : List Str) : LitText :=
+def guarded (norm : NumKind → Str → Str) (k : NumKind) (lex : Str) (toks : List Str) : LitText :=
   match plainChoice k lex (toks.map (fun t => (t, norm k t))) with
   | some tok => .shorthand tok
   | none => .quoted (quoteEncode lex)
+
+/-- the one unguarded case left in `_literal_label`: a decimal whose `_literal_n3(use_plain=True)` text (the first
+    candidate) contains an exponent is written as that bare text (pinned by rdflib's test_issue1043; C03-K5) -/
+def pinnedExp (k : NumKind) (toks : List Str) : Option Str :=
+  match k, toks with
+  | .decimal, t0 :: _ => if hasExp t0 then some t0 else none
+  | _, _ => none
+
+/-- `turtle._literal_label` -/
+def writeNum (norm : NumKind → Str → Str) (k : NumKind) (lex : Str) (toks : List Str) : LitText :=
+  match pinnedExp k toks with
+  | some t0 => .shorthand t0
+  | none => guarded norm k lex toks
 
 /-- a Turtle reader: a bare token gets the datatype its grammar names, a quoted one the datatype written
     after `^^`; either way the reader builds `Literal(text, datatype)` (normalising) -/
